@@ -30,6 +30,18 @@ def check_site(ctx, rule: str, fn: ast.AST, site: sub.Site, what: str, word_boun
                       "the other reference; the result depends on declaration order" % (what, short(site.key, 60)))
     pats = sub.resolve_pattern(fn, site.pattern)
     ok_all = True
+    # every occurrence: the substitution is not limited by a count argument (pattern.sub(repl, text, count) / re.sub(p, repl, text, count))
+    c_ = site.call
+    is_module_sub = (call_name(c_) or "").startswith("re.")
+    pos = 3 if is_module_sub else 2
+    limit = c_.args[pos] if len(c_.args) > pos else next((k.value for k in c_.keywords if k.arg == "count"), None)
+    unlimited = limit is None or (isinstance(limit, ast.Constant) and limit.value == 0)
+    ctx.ob(rule, site.call, unlimited,
+           "%s is substituted at every occurrence" % what if unlimited else
+           "%s is substituted at most %s time(s) per string: a string that uses the same reference twice ('x:output vs x:output') keeps the "
+           "second occurrence as it was - for a looped component the second loop-carried input still names the binding / the placeholder" % (
+               what, short(limit, 10)), construct="%s <- no count limit" % short(site.call, 80))
+    ok_all = ok_all and unlimited
     for (p, pfn, binds) in pats:
         info = sub.pattern_anchoring(p, pfn, binds)
         ok = bool(info["escaped_keys"]) and info["left"] and info["right"] and not info["raw_interpolation"]
